@@ -8,7 +8,7 @@ one QoS level reach every subscriber of that topic in the order they were
 published."
 
 Property theorems only (helper lemmas: `Proofs/WriteLock.lean`,
-`Proofs/BrokerOrder.lean`).
+`Proofs/WriteWrap*.lean`, `Proofs/BrokerOrder.lean`).
 
 Part 1 (whole packets) is about `Model/WriteLock.lean`: `service.writeMessage`
 as a small-step program run by any number of goroutines against one
@@ -19,16 +19,25 @@ string here: that `Encode` produces a well-formed packet of exactly the
 announced length is the codec's property (C03); what is proved here is that
 the stream is the concatenation of those byte strings, whole and in commit order.
 
+Section 5 redoes part 1 over the ring as it is (`Model/WriteWrap.lean`): a finite
+ring of `2^k` cells with a consumer, `WriteWait` blocking / refusing, and the
+wrap branch with the shared scratch buffer `svc.outtmp` (helper lemmas:
+`Proofs/WriteWrap*.lean`; tie to the source: `extract/facts_wrap.go`).
+
 Part 2 (per-publisher order, section 4) is about the sequential broker model
 `Model/Broker.lean`, for *all* broker states satisfying the representation
 invariant `BInv` (C02: holds initially, preserved by every event), all
 connection identifiers, packets and event histories.
 -/
 import Mqtt.Proofs.WriteLock
+import Mqtt.Proofs.WriteWrapProgress
+import Mqtt.Proofs.WriteWrapScratch
+import Mqtt.Proofs.WriteWrapFacts
 import Mqtt.Proofs.BrokerOrder
 
 namespace Mqtt.Properties.C17
 
+section lock
 open Mqtt.Model.WriteLock Mqtt.Proofs.WriteLock
 
 /-! ## 1. Whole packets under `wmu` (any number of concurrent writers) -/
@@ -211,6 +220,8 @@ is refused while thread 0 holds `wmu`, thread 0 is enabled -/
 example :
     let s := run true (init [[[1]], [[2]]]) [0, 0]
     s.holder = some 0 ∧ step true s 1 = none ∧ (step true s 0).isSome = true ∧ work s = 6 := by decide
+
+end lock
 
 /-! ## 4. Per-publisher order on the broker model
 
@@ -399,5 +410,324 @@ example :
     stream 1 demo (evs.take 3) = [] := by decide
 
 end order
+
+/-! ## 5. The finite ring: wrap branch, scratch buffer, blocking (`Model/WriteWrap.lean`)
+
+Sections 1–3 treat the outgoing buffer as an unbounded array.  Here it is the ring it is:
+`size = 2^k` cells, producer cursor `pseq`, consumer cursor `cseq`, ONE consumer that takes out
+any number of the bytes below `pseq` (`Act.consume k`: up to `k`), and `writeMessage` with both
+of its branches — `WriteWait` (blocks while `pseq + l − size > cseq`; `ErrBufferFull` for
+`l > size`), then either `Encode` into the ring and `WriteCommit`, or, when the reservation
+crosses the end of the ring, growth of the shared scratch buffer `svc.outtmp` if it is shorter
+than `l`, `Encode` into it (bytes beyond the packet stay as they were), and
+`Write(svc.outtmp[0:n])` = `waitForWriteSpace` again, `ringCopy` around the end of the ring,
+cursor store.  Every theorem quantifies over the ring size `2^k`, the initial contents `tmp0` of
+the scratch buffer, the number of threads and their packet lists `todos` (packets of ANY length),
+and every schedule `sched : List Act` of thread and consumer steps (a thread step that is not
+enabled is skipped).  `Encode` writing exactly the `Len()` bytes of a well-formed packet is C03. -/
+
+section wrap
+open Mqtt.Model.WriteWrap Mqtt.Proofs.WriteWrap
+
+/-- **C17 wrap (a) — unread data is never overwritten.**  In every reachable state, whatever
+thread step is taken next: it does not move the consumer cursor or the observed stream, does not
+take the producer cursor back, keeps the ring at `size` cells, and leaves every cell that holds
+a committed, not yet consumed byte (stream positions `[cseq, pseq)`) as it is — so the unread
+bytes read off the ring before and after the step are the same.  At most `size` bytes are ever
+unread. -/
+theorem C17_wrap_safety (k : Nat) (tmp0 : List UInt8) (todos : List (List (List UInt8)))
+    (sched : List Act) (t : Nat) :
+    let size := 2 ^ k
+    let s := run code size (init size tmp0 todos) sched
+    s.sh.ring.length = size ∧ s.sh.cseq ≤ s.sh.pseq ∧ s.sh.pseq ≤ s.sh.cseq + size ∧
+    ∀ s', step code size s t = some s' →
+      s'.sh.cseq = s.sh.cseq ∧ s.sh.pseq ≤ s'.sh.pseq ∧ s'.sh.got = s.sh.got ∧
+      s'.sh.ring.length = size ∧
+      (∀ pos, s.sh.cseq ≤ pos → pos < s.sh.pseq → s'.sh.ring[pos % size]? = s.sh.ring[pos % size]?) ∧
+      readRing s'.sh.ring size s.sh.cseq (s.sh.pseq - s.sh.cseq) = unread size s := by
+  intro size s
+  have hsz : 0 < size := Nat.two_pow_pos k
+  have hI : Inv size todos s := inv_reachable size hsz tmp0 todos sched
+  refine ⟨hI.sh.ringlen, hI.sh.le, hI.sh.room, ?_⟩
+  intro s' hs
+  obtain ⟨h1, h2, h3, h4, h5⟩ := step_safe hsz hI hs
+  refine ⟨h1, h2, h3, by rw [h4]; exact hI.sh.ringlen, h5, ?_⟩
+  apply readRing_congr
+  intro i hi
+  exact h5 (s.sh.cseq + i) (by omega) (by have := hI.sh.le; omega)
+
+/-- **C17 wrap (b) — the stream theorem.**  In every reachable state the bytes the consumer has
+observed so far, followed by the unread bytes `[cseq, pseq)` read off the ring, are exactly the
+concatenation of the packets committed so far, in commit order.  Hence the observed stream is a
+prefix of a concatenation of WHOLE packets (every packet boundary the consumer sees is a real
+one, nothing stale, torn or foreign ever appears), the consumer cursor is the number of bytes
+observed and the producer cursor the total length of the committed packets. -/
+theorem C17_wrap_stream (k : Nat) (tmp0 : List UInt8) (todos : List (List (List UInt8)))
+    (sched : List Act) :
+    let size := 2 ^ k
+    let s := run code size (init size tmp0 todos) sched
+    s.sh.got ++ unread size s = (done s).flatten ∧
+    s.sh.got <+: (done s).flatten ∧
+    s.sh.cseq = s.sh.got.length ∧ s.sh.pseq = (done s).flatten.length := by
+  intro size s
+  have hI : Inv size todos s := inv_reachable size (Nat.two_pow_pos k) tmp0 todos sched
+  have hst : s.sh.got ++ unread size s = (done s).flatten := hI.sh.stream
+  refine ⟨hst, ⟨_, hst⟩, ?_, hI.sh.pseq⟩
+  have hl := congrArg List.length hst
+  rw [List.length_append] at hl
+  have hu : (unread size s).length = s.sh.pseq - s.sh.cseq := readRing_length _ _ _ _
+  have := hI.sh.pseq
+  have := hI.sh.le
+  omega
+
+/-- **… with every writer's order kept and nothing lost.**  `s.log` lists the finished calls of
+`writeMessage` (thread, committed or failed, packet) in the order they finished; `done s` are the
+packets of its committed entries.  Every entry belongs to an existing thread; a call fails
+exactly when its packet is longer than the ring (`ErrBufferFull`; nothing of it is written); and
+for every thread the packets of its entries, in order, followed by what it still has to deliver,
+are the list it was given. -/
+theorem C17_wrap_order (k : Nat) (tmp0 : List UInt8) (todos : List (List (List UInt8)))
+    (sched : List Act) :
+    let size := 2 ^ k
+    let s := run code size (init size tmp0 todos) sched
+    s.ths.length = todos.length ∧
+    (∀ e ∈ s.log, e.t < todos.length) ∧
+    (∀ e ∈ s.log, (e.ok = true ↔ e.pkt.length ≤ size)) ∧
+    (∀ t th, s.ths[t]? = some th → todos[t]? = some (sent s.log t ++ th.todo)) ∧
+    (∀ p ∈ done s, p.length ≤ size ∧ ∃ l ∈ todos, p ∈ l) := by
+  intro size s
+  have hI : Inv size todos s := inv_reachable size (Nat.two_pow_pos k) tmp0 todos sched
+  refine ⟨hI.len, hI.logt, hI.logok, hI.prov, ?_⟩
+  intro p hp
+  simp only [done, List.mem_map, List.mem_filter] at hp
+  obtain ⟨e, ⟨he, hok⟩, rfl⟩ := hp
+  refine ⟨(hI.logok e he).mp hok, ?_⟩
+  have ht : e.t < s.ths.length := by rw [hI.len]; exact hI.logt e he
+  have hth : s.ths[e.t]? = some s.ths[e.t] := List.getElem?_eq_getElem ht
+  refine ⟨_, List.mem_of_getElem? (hI.prov e.t _ hth), ?_⟩
+  apply List.mem_append_left
+  simp only [sent, List.mem_map, List.mem_filter]
+  exact ⟨e, ⟨he, by simp⟩, rfl⟩
+
+/-- Mutual exclusion and the assertions of the delivery in progress.  In every reachable state a
+thread inside `writeMessage` holds `wmu`, every other thread is outside, and — `PcOk`, by program
+counter — its packet fits (`|m| ≤ size`, reservation `[pseq, pseq + |m|)` below `cseq + size`);
+the cursor values it holds ARE the producer cursor (so it makes no difference that `Write` and
+`WriteCommit` re-read it); past the growth test the scratch buffer is long enough; after `Encode`
+into the scratch buffer its first `|m|` bytes are the packet, and the length handed to `Write` is
+`|m|`; after `Encode` into the ring / `ringCopy` the ring holds the packet at `[pseq, pseq + |m|)`. -/
+theorem C17_wrap_critical_section (k : Nat) (tmp0 : List UInt8) (todos : List (List (List UInt8)))
+    (sched : List Act) :
+    let size := 2 ^ k
+    let s := run code size (init size tmp0 todos) sched
+    ∀ t th, s.ths[t]? = some th → th.pc ≠ .idle →
+      s.holder = some t ∧
+      (∀ u thu, s.ths[u]? = some thu → u ≠ t → thu.pc = .idle) ∧
+      ∃ m rest, th.todo = m :: rest ∧ PcOk size s.sh m th.pc := by
+  intro size s t th hth hpc
+  have hI : Inv size todos s := inv_reachable size (Nat.two_pow_pos k) tmp0 todos sched
+  have hh := hI.holder_of_busy hth hpc
+  refine ⟨hh, ?_, ?_⟩
+  · intro u thu hu hne
+    exact hI.idle u thu hu (by rw [hh]; intro c; cases c; exact hne rfl)
+  · obtain ⟨th', m, rest, hth', htodo, hP⟩ := hI.held t hh
+    rw [hth] at hth'; cases hth'
+    exact ⟨m, rest, htodo, hP⟩
+
+/-- **C17 wrap (c) — the scratch buffer never reaches the stream.**  (b) holds for every initial
+scratch buffer; more: two runs on the same schedule that start with different scratch buffers
+agree, after every step, on the observed stream, the ring, both cursors, `wmu`, the threads and
+the log — nothing the consumer or any thread can observe depends on what earlier packets (or
+anything else) left in `svc.outtmp`, nor on how often it had to grow. -/
+theorem C17_wrap_scratch_irrelevant (k : Nat) (tmp0 tmp1 : List UInt8)
+    (todos : List (List (List UInt8))) (sched : List Act) :
+    let size := 2 ^ k
+    let s0 := run code size (init size tmp0 todos) sched
+    let s1 := run code size (init size tmp1 todos) sched
+    s0.sh.got = s1.sh.got ∧ s0.sh.ring = s1.sh.ring ∧ s0.sh.pseq = s1.sh.pseq ∧ s0.sh.cseq = s1.sh.cseq ∧
+    s0.holder = s1.holder ∧ s0.log = s1.log ∧
+    s0.ths.map (fun th => (th.pc, th.todo)) = s1.ths.map (fun th => (th.pc, th.todo)) := by
+  intro size s0 s1
+  obtain ⟨⟨h1, h2, h3, h4⟩, h5, h6, h7⟩ :=
+    scratch_irrelevant size (Nat.two_pow_pos k) tmp0 tmp1 todos sched
+  exact ⟨h4, h3, h1, h2, h5, h7, by rw [h6]⟩
+
+/-- … and `[0:n]` is what keeps it out.  The variant that hands the WHOLE scratch buffer to
+`Write` (`svc.out.Write(svc.outtmp)`; seeded change C17-wrap-writes-whole-scratch), ring of 8
+cells, one thread, no concurrency: `[7,8,9,10]` wraps (scratch buffer grows to 4 bytes), later the
+smaller `[21,22]` wraps too and is followed into the stream by the stale `9, 10`. -/
+theorem C17_wrap_whole_scratch_counterexample :
+    let sched : List Act :=
+      List.replicate 5 (.th 0) ++ [.consume 8] ++ List.replicate 7 (.th 0) ++ [.consume 8] ++
+      List.replicate 5 (.th 0) ++ [.consume 8] ++ List.replicate 7 (.th 0) ++ [.consume 8]
+    let s := run { code with sliceN := false } 8
+      (init 8 [] [[[1, 2, 3, 4, 5, 6], [7, 8, 9, 10], [11, 12, 13, 14, 15], [21, 22]]]) sched
+    done s = [[1, 2, 3, 4, 5, 6], [7, 8, 9, 10], [11, 12, 13, 14, 15], [21, 22]] ∧
+    s.sh.got = [1, 2, 3, 4, 5, 6, 7, 8, 9, 10, 11, 12, 13, 14, 15, 21, 22, 9, 10] ∧
+    s.sh.got ++ unread 8 s ≠ (done s).flatten ∧ ¬ s.sh.got <+: (done s).flatten := by decide
+
+/-- the same packets and schedule through the program as it is -/
+example :
+    let sched : List Act :=
+      List.replicate 5 (.th 0) ++ [.consume 8] ++ List.replicate 7 (.th 0) ++ [.consume 8] ++
+      List.replicate 5 (.th 0) ++ [.consume 8] ++ List.replicate 7 (.th 0) ++ [.consume 8]
+    let s := run code 8
+      (init 8 [] [[[1, 2, 3, 4, 5, 6], [7, 8, 9, 10], [11, 12, 13, 14, 15], [21, 22]]]) sched
+    s.sh.got = [1, 2, 3, 4, 5, 6, 7, 8, 9, 10, 11, 12, 13, 14, 15, 21, 22] ∧
+    s.sh.outtmp = [21, 22, 9, 10] ∧ s.sh.ring = [22, 10, 11, 12, 13, 14, 15, 21] ∧
+    s.sh.pseq = 17 ∧ s.sh.cseq = 17 := by decide
+
+/-- **C17 wrap (d) — the mutex is necessary on the wrap path too.**  The program without `wmu`,
+ring of 8 cells: after `[1..6]` both threads reserve at position 6, both reservations wrap, both
+packets go through the ONE scratch buffer: thread 1's `Encode` overwrites thread 0's packet before
+thread 0's `Write` copies it.  Both calls report success; the consumer sees `[21,22,23]` twice
+and `[11,12,13]` never. -/
+theorem C17_wrap_unlocked_counterexample :
+    let sched : List Act :=
+      List.replicate 5 (.th 0) ++ [.consume 8] ++
+      [.th 0, .th 0, .th 1, .th 1, .th 0, .th 0, .th 1, .th 1, .th 0, .th 0, .th 0, .th 1, .th 1, .th 1,
+       .consume 8]
+    let s := run { code with locked := false } 8
+      (init 8 [] [[[1, 2, 3, 4, 5, 6], [11, 12, 13]], [[21, 22, 23]]]) sched
+    done s = [[1, 2, 3, 4, 5, 6], [11, 12, 13], [21, 22, 23]] ∧
+    s.sh.got = [1, 2, 3, 4, 5, 6, 21, 22, 23, 21, 22, 23] ∧
+    s.sh.got ++ unread 8 s ≠ (done s).flatten := by decide
+
+/-- the same schedule under the lock (thread 1 is refused until thread 0 has committed; it gets
+its steps afterwards) -/
+example :
+    let sched : List Act :=
+      List.replicate 5 (.th 0) ++ [.consume 8] ++
+      [.th 0, .th 0, .th 1, .th 1, .th 0, .th 0, .th 1, .th 1, .th 0, .th 0, .th 0, .th 1, .th 1, .th 1,
+       .consume 8] ++ List.replicate 8 (.th 1) ++ [.consume 8]
+    let s := run code 8 (init 8 [] [[[1, 2, 3, 4, 5, 6], [11, 12, 13]], [[21, 22, 23]]]) sched
+    s.sh.got = [1, 2, 3, 4, 5, 6, 11, 12, 13, 21, 22, 23] ∧
+    s.log = [⟨0, true, [1, 2, 3, 4, 5, 6]⟩, ⟨0, true, [11, 12, 13]⟩, ⟨1, true, [21, 22, 23]⟩] := by decide
+
+/-- **C17 wrap (e) — progress, the fairness hypothesis stated.**  `mu size s =
+(size + 1) · work s + (pseq − cseq)` (`work`: at most 8 own steps per outstanding packet).  From
+every reachable state: no schedule ever raises `mu`; and as long as a packet is outstanding, every
+FAIR segment — one that schedules each thread at least once and contains a consumer step asking
+for at least one byte (`Fair`) — lowers it.  The reason: a thread inside `writeMessage` waits
+only in `WriteWait`, only for a packet that fits, and then unread bytes exist, so the consumer's
+step is effective; with `wmu` free any thread with a packet can enter. -/
+theorem C17_wrap_progress (k : Nat) (tmp0 : List UInt8) (todos : List (List (List UInt8)))
+    (sched : List Act) :
+    let size := 2 ^ k
+    let s := run code size (init size tmp0 todos) sched
+    (∀ seg, mu size (run code size s seg) ≤ mu size s) ∧
+    (∀ seg, Fair todos.length seg → (∃ th ∈ s.ths, th.todo ≠ []) →
+      mu size (run code size s seg) < mu size s) ∧
+    (∀ t th m rest, s.ths[t]? = some th → th.todo = m :: rest → th.pc ≠ .idle → step code size s t = none →
+      th.pc = .entered ∧ m.length ≤ size ∧ s.sh.cseq < s.sh.pseq) := by
+  intro size s
+  have hsz : 0 < size := Nat.two_pow_pos k
+  have hI : Inv size todos s := inv_reachable size hsz tmp0 todos sched
+  refine ⟨fun seg => run_mu_le hsz seg hI, fun seg hf hw => fair_lt hsz hI hw hf, ?_⟩
+  intro t th m rest hth htodo hpc hs
+  have hP := hI.pcOk_of_busy hth htodo hpc
+  apply pcStep_blocked hP
+  unfold step at hs
+  rw [hth] at hs
+  simp only [htodo, hpc, ↓reduceIte] at hs
+  split at hs
+  · assumption
+  · cases hs
+  · cases hs
+
+/-- **… every packet is eventually dealt with.**  Any schedule made of `mu(initial state) =
+(size + 1) · 8 · #packets` fair segments (so: every fair infinite schedule, after a prefix of
+that many rounds) ends with every thread's list empty: every packet of length ≤ `size` has been
+committed and every longer one refused — each thread's log entries are its list, in order — and
+by (b) the stream the consumer sees then is the committed packets, whole, in commit order. -/
+theorem C17_wrap_eventually (k : Nat) (tmp0 : List UInt8) (todos : List (List (List UInt8)))
+    (segs : List (List Act)) (hfair : ∀ seg ∈ segs, Fair todos.length seg)
+    (hlen : (2 ^ k + 1) * (8 * (todos.map List.length).sum) ≤ segs.length) :
+    let size := 2 ^ k
+    let s := run code size (init size tmp0 todos) segs.flatten
+    (∀ th ∈ s.ths, th.todo = []) ∧
+    (∀ t l, todos[t]? = some l → sent s.log t = l) ∧
+    (∀ l ∈ todos, ∀ p ∈ l, (p.length ≤ size → p ∈ done s) ∧ (size < p.length → p ∈ failed s)) ∧
+    s.sh.got ++ unread size s = (done s).flatten := by
+  intro size s
+  have hsz : 0 < size := Nat.two_pow_pos k
+  have hI : Inv size todos s := inv_reachable size hsz tmp0 todos segs.flatten
+  have hall : ∀ th ∈ s.ths, th.todo = [] :=
+    fair_run_delivers hsz segs (inv_init size tmp0 todos) hfair (by rw [mu_init]; exact hlen)
+  have hsent : ∀ t l, todos[t]? = some l → sent s.log t = l := by
+    intro t l hl
+    have ht : t < s.ths.length := by rw [hI.len]; exact lt_of_getElem? hl
+    have hth : s.ths[t]? = some s.ths[t] := List.getElem?_eq_getElem ht
+    have := hI.prov t _ hth
+    rw [hall _ (List.getElem_mem ht), List.append_nil, hl] at this
+    exact (Option.some.inj this).symm
+  refine ⟨hall, hsent, ?_, hI.sh.stream⟩
+  intro l hl p hp
+  obtain ⟨t, ht⟩ := List.mem_iff_getElem?.mp hl
+  have hps : p ∈ sent s.log t := by rw [hsent t l ht]; exact hp
+  simp only [sent, List.mem_map, List.mem_filter] at hps
+  obtain ⟨e, ⟨he, _⟩, rfl⟩ := hps
+  have hok := hI.logok e he
+  constructor
+  · intro hle
+    simp only [done, List.mem_map, List.mem_filter]
+    exact ⟨e, ⟨he, hok.mpr hle⟩, rfl⟩
+  · intro hgt
+    simp only [failed, List.mem_map, List.mem_filter]
+    refine ⟨e, ⟨he, ?_⟩, rfl⟩
+    cases hb : e.ok with
+    | false => rfl
+    | true => have := hok.mp hb; omega
+
+/-- the ring is full: thread 0 has committed 6 of 8 bytes, its next packet `[11,12,13]` has to
+wait in `WriteWait` holding `wmu`; one byte consumed is enough for it to go on; thread 1's 9-byte
+packet is longer than the ring and is refused, everything else arrives -/
+example :
+    let s := run code 8 (init 8 [9, 9] [[[1, 2, 3, 4, 5, 6], [11, 12, 13]], [[21, 22, 23, 24, 25, 26, 27, 28, 29]]])
+      (List.replicate 7 (.th 0))
+    s.holder = some 0 ∧ step code 8 s 0 = none ∧ step code 8 s 1 = none ∧
+    (step code 8 (consume 8 s 1) 0).isSome = true ∧
+    (let s' := run code 8 s ([.consume 3] ++ List.replicate 7 (.th 0) ++ List.replicate 3 (.th 1) ++ [.consume 100])
+     s'.sh.got = [1, 2, 3, 4, 5, 6, 11, 12, 13] ∧ done s' = [[1, 2, 3, 4, 5, 6], [11, 12, 13]] ∧
+     failed s' = [[21, 22, 23, 24, 25, 26, 27, 28, 29]] ∧ s'.sh.outtmp = [11, 12, 13] ∧
+     (s'.ths.all (fun th => th.todo.isEmpty)) = true) := by decide
+
+/-- a fair segment for two threads -/
+example : Fair 2 [.th 0, .consume 1, .th 1] := by
+  refine ⟨?_, 1, by decide, by decide⟩
+  intro t ht
+  have : t = 0 ∨ t = 1 := by omega
+  rcases this with rfl | rfl <;> decide
+
+/-! ### Tie to the Go source -/
+
+/-- The copy the model performs in `Write` IS the translated `service.ringCopy`
+(`Generated/Xlate.lean`, regenerated from buffer.go on every check) applied to the ring, the bytes
+and `pos & mask` — for every loop budget ≥ 3; and the cell index `pos % 2^k` is the code's
+`pos & (size − 1)` (`C14_idx_is_source` ties that to the translated Go expression). -/
+theorem C17_wrap_ringCopy_is_source (k fuel : Nat) (hf : 3 ≤ fuel) (ring src : List UInt8) (pos : Nat)
+    (hlen : ring.length = 2 ^ k) (hS : src.length ≤ 2 ^ k) :
+    Mqtt.Generated.Xlate.Service.ringCopy fuel ring src ((pos % 2 ^ k : Nat) : Int) =
+      .ok (ringPut ring src (pos % 2 ^ k), src.length) ∧
+    pos % 2 ^ k = pos &&& (2 ^ k - 1) :=
+  ⟨ringPut_is_source fuel hf (2 ^ k) (Nat.two_pow_pos k) ring src pos hlen hS,
+   (Nat.and_two_pow_sub_one_eq_mod pos k).symm⟩
+
+/-- The statement-level shape of `writeMessage` regenerated from sendrecv.go
+(`extract/facts_wrap.go`: `l := msg.Len()`, Lock, deferred Unlock, `WriteWait(l)`, `if wrap`;
+growth test `len(svc.outtmp) < l` with `make([]byte, l)`, `Encode(svc.outtmp[0:])`,
+`Write(svc.outtmp[0:n])`; `Encode(buf[0:])`, `WriteCommit(n)`) is the model's table for the shape
+`code` the theorems above are about, and the table is what the model's steps do on probe states
+(`Proofs/WriteWrapFacts.lean`). -/
+theorem C17_wrap_shape_is_source :
+    Mqtt.Generated.wmHead = headTable code ∧
+    Mqtt.Generated.wmWrapBranch = wrapTable code ∧
+    Mqtt.Generated.wmPlainBranch = plainTable code ∧
+    trace code 8 9 (probe [] [7, 8, 9, 10]) = [2, 4] ++ Mqtt.Generated.wmWrapBranch ∧
+    trace code 8 9 (probe [] [7, 8]) = [2, 4] ++ Mqtt.Generated.wmPlainBranch :=
+  ⟨facts_write_wrap_shape.1, facts_write_wrap_shape.2.1, facts_write_wrap_shape.2.2,
+   facts_write_wrap_steps.1, facts_write_wrap_steps.2.2.1⟩
+
+end wrap
 
 end Mqtt.Properties.C17
